@@ -16,6 +16,7 @@ mod plan;
 mod rng;
 mod runner;
 mod scen_image;
+mod scen_worker;
 mod world;
 
 use std::os::fd::FromRawFd;
@@ -25,7 +26,9 @@ use crate::core::{Scenario, Tier};
 
 fn scenario(id: &str) -> Option<Box<dyn Scenario>> {
     match id {
+        "C04" => Some(Box::new(scen_worker::WorkerScenario)),
         "C09" => Some(Box::new(scen_image::ImageScenario)),
+        "C13" => Some(Box::new(scen_worker::ReorderScenario)),
         _ => None,
     }
 }
